@@ -471,6 +471,11 @@ pub fn faulted<T>(
     if !storage && !identity {
         return call(w);
     }
+    // (the non-atomic write_to_storage is C15's recorded finding; other properties that borrow the storage faults
+    // leave that operation alone)
+    if storage && w.cfg.knob("no-write-faults").is_some() && what == "write_to_storage" {
+        return call(w);
+    }
     let prop = w.cfg.property.clone();
     let kind = if storage { "S-ERR" } else { "A-ID-ERR" };
     let r0 = w.parties[p].ctx.get_prng();
@@ -588,6 +593,10 @@ pub fn faulted<T>(
                         what: format!("{what} with {kind} at call {plan:?} ({site})"),
                     };
                     check_unchanged(w, p, g, pre, &format!("fault:{what}:{site}"), &cls, String::new())?;
+                    // C09: whatever the failed operation did, the stored private keys still belong to the tree
+                    if w.cfg.oracle("private-keys") && w.mem_ref(p, g).map(|m| m.group.is_some()).unwrap_or(false) {
+                        crate::treeor::c09_on_epoch(w, p, g, &format!("failed {what} ({site})"))?;
+                    }
                 }
                 let d1 = disk_view(w, p, g);
                 if d1 != d0 {
@@ -844,7 +853,7 @@ pub fn do_special(w: &mut World, kind: &str, a: u64, b: u64, c: u64) -> VResult<
         "apply_detached" => do_apply_detached(w, a as usize, c as usize, b),
         "bad_join" => do_bad_join(w, a, b as usize, c as usize),
         "branch" => crate::c17::do_branch(w, a as usize, b, c),
-        "forge" if b >= 9 => crate::c10::do_forge_update(w, a as usize, 0, c as usize, None),
+        "forge" if b >= 10 => crate::c10::do_forge_update(w, a as usize, 0, c as usize, None),
         "update_clash" => crate::c10::do_update_clash(w, a as usize, 0, b),
         "forge" => crate::c10::do_forge(w, a as usize, 0, b, c as usize),
         "sflip" => crate::codec::do_stored_flip(w, a as usize, c as usize, b),
